@@ -12,4 +12,4 @@ pub mod emit;
 pub mod g22;
 pub mod g25;
 pub mod g26;
-pub mod rt;
+pub use dxs_rt as rt;
